@@ -152,14 +152,22 @@ func (cl *Loader) load(file string) (config map[string]interface{}, err error) {
 	var raw map[string]interface{}
 	importDir := path.Dir(file)
 	if imports, ok := config["import"]; ok {
-		for _, v := range imports.([]interface{}) {
-			if utils.IsURL(v.(string)) {
-				if cl.imports[v.(string)] {
+		importList, ok := imports.([]interface{})
+		if !ok {
+			return nil, fmt.Errorf("%s: import must be a list of files, directories or URLs", file)
+		}
+		for _, entry := range importList {
+			v, ok := entry.(string)
+			if !ok {
+				return nil, fmt.Errorf("%s: import entries must be strings, got %v", file, entry)
+			}
+			if utils.IsURL(v) {
+				if cl.imports[v] {
 					continue
 				}
-				raw, err = cl.load(v.(string))
+				raw, err = cl.load(v)
 			} else {
-				importFile := path.Join(importDir, v.(string))
+				importFile := path.Join(importDir, v)
 				if cl.imports[importFile] {
 					continue
 				}
@@ -178,6 +186,16 @@ func (cl *Loader) load(file string) (config map[string]interface{}, err error) {
 			}
 			if err != nil {
 				return nil, fmt.Errorf("load import error: %v", err)
+			}
+
+			// yaml.v2 decodes nested mappings into map[interface{}]interface{},
+			// JSON and TOML into map[string]interface{}; merging one into the
+			// other key by key needs a common type
+			for k, v := range config {
+				config[k] = stringKeyedMaps(v)
+			}
+			for k, v := range raw {
+				raw[k] = stringKeyedMaps(v)
 			}
 
 			err = mergo.Merge(&config, raw, mergo.WithOverride, mergo.WithAppendSlice, mergo.WithTypeCheck)
@@ -290,6 +308,25 @@ func (cl *Loader) unmarshalData(data []byte, ext string) (map[string]interface{}
 	}
 
 	return cm, nil
+}
+
+// stringKeyedMaps converts every map[interface{}]interface{} inside v into a
+// map[string]interface{}
+func stringKeyedMaps(v interface{}) interface{} {
+	switch x := v.(type) {
+	case map[interface{}]interface{}:
+		m := make(map[string]interface{}, len(x))
+		for k, e := range x {
+			m[fmt.Sprint(k)] = stringKeyedMaps(e)
+		}
+		return m
+	case []interface{}:
+		for i, e := range x {
+			x[i] = stringKeyedMaps(e)
+		}
+	}
+
+	return v
 }
 
 func (cl *Loader) decode(cm map[string]interface{}) (*configDefinition, error) {
